@@ -69,26 +69,31 @@ def _split_long_branches(
                 np.sum(length_traced) for length_traced in lengths_of_subbranches
             ]
             length = max(lengths_of_subbranches)
-            if num_subbranches > 10:
+            if num_subbranches > 10 or len(split_branch) < num_subbranches:
                 warn(
-                    """`num_subbranches > 10`, stopping to split. Most likely your
+                    """`num_subbranches > 10` or every traced segment is already a
+                     branch of its own, stopping to split. Most likely your
                      SWC reconstruction is not dense and some neighbouring traced
                      points are farther than `max_branch_len` apart."""
                 )
                 break
         split_branches += split_branch
-        split_types += [type] * num_subbranches
+        split_types += [type] * len(split_branch)
 
     return split_branches, split_types
 
 
 def _split_branch_equally(branch: np.ndarray, num_subbranches: int) -> List[np.ndarray]:
-    num_points_each = len(branch) // num_subbranches
-    branches = [branch[:num_points_each]]
-    for i in range(1, num_subbranches - 1):
-        branches.append(branch[i * num_points_each - 1 : (i + 1) * num_points_each])
-    branches.append(branch[(num_subbranches - 1) * num_points_each - 1 :])
-    return branches
+    """Cut a branch into pieces with (almost) the same number of traced segments.
+
+    Neighbouring pieces share the traced point at which the branch is cut and every
+    piece keeps at least two traced points (a piece of a single point would be turned
+    into a separate cylinder or into a branch of length zero). A branch of `n` traced
+    segments can therefore be cut into at most `n` pieces."""
+    num_segments = len(branch) - 1
+    num_subbranches = max(1, min(num_subbranches, num_segments))
+    cuts = [(i * num_segments) // num_subbranches for i in range(num_subbranches + 1)]
+    return [branch[cuts[i] : cuts[i + 1] + 1] for i in range(num_subbranches)]
 
 
 def _split_into_branches(
